@@ -145,8 +145,13 @@ struct JSONUtils {
                             ++offset;
 
                             if ((length - offset) > SizeT{3}) {
-                                SizeT32 code = Digit::HexStringToNumber<SizeT32>((content + offset), SizeT{4});
-                                offset += SizeT{4};
+                                const SizeT digits_end = (offset + SizeT{4});
+                                SizeT32     code       = Digit::HexStringToNumber<SizeT32>(content, offset, digits_end);
+
+                                if (offset != digits_end) {
+                                    return 0; // \u needs four hexadecimal digits.
+                                }
+
                                 offset2 = offset;
 
                                 if ((code & 0xFC00U) != 0xD800U) {
@@ -162,12 +167,16 @@ struct JSONUtils {
                                     code = (code ^ 0xD800U) << 10U;
                                     offset += SizeT{2};
 
-                                    code += Digit::HexStringToNumber<SizeT32>((content + offset), SizeT{4}) & 0x3FFU;
+                                    const SizeT low_end = (offset + SizeT{4});
+                                    code += Digit::HexStringToNumber<SizeT32>(content, offset, low_end) & 0x3FFU;
                                     code += 0x10000U;
+
+                                    if (offset != low_end) {
+                                        return 0; // \u needs four hexadecimal digits.
+                                    }
 
                                     Unicode::ToUTF<Char_T>(code, stream);
 
-                                    offset += SizeT{4};
                                     offset2 = offset;
                                     continue;
                                 }
